@@ -59,7 +59,7 @@ def group_violations(viols):
 
 
 def write_replay(prop, viol):
-    d = os.path.join(env.VERIF_DIR, "replays", prop)
+    d = os.path.join(os.environ.get("VERIF_REPLAY_DIR") or os.path.join(env.VERIF_DIR, "replays"), prop)
     os.makedirs(d, exist_ok=True)
     h = hashlib.sha256(canon({"c": viol["clause"], "k": viol.get("key", {}), "case": viol.get("case")}).encode()).hexdigest()[:12]
     p = os.path.join(d, f"{viol['clause']}-{h}.json")
